@@ -34,7 +34,9 @@ def run(prop, tier, seed, replay=None):
     rng = random.Random(seed)
     jobs = []
     for j, p in enumerate(P):
-        ws = wrappers if thorough else [wrappers[j % len(wrappers)], "plain"]
+        ws = (wrappers + progs.EXTRA_WRAPPERS) if thorough else [wrappers[j % len(wrappers)], "plain"]
+        if not thorough and j % 3 == 0 and any(x in json.dumps(p) for x in ('"poskw": true', '"dstar": true', '"n": "CX"')):
+            ws = ws + ["twopos"]
         for w in dict.fromkeys(ws):
             jobs.append({"id": f"C09-{len(jobs)}", "prog": progs.to_next(p) if w == "generator" else p, "wrapper": w})
     res = pool.run(workers.recode_cases, jobs)
